@@ -459,12 +459,59 @@ def render_loop_contract(loop, probe_labels):
     return lines
 
 
+def lift_closure(text, name, captures, where):
+    """R25 (closure conversion): `let mut NAME = |PARAMS| { BODY };` inside a function is removed, its calls
+    `NAME(args)` become `Self::verif_closure_NAME(CAPTURE_ARGS, args)`, and the closure becomes the associated
+    function `fn verif_closure_NAME(CAPTURE_PARAMS, PARAMS) { BODY }` (body verbatim). `captures` lists the
+    captured variables as (name, parameter type, argument expression); a capture that is missing from the list
+    makes the lifted function fail to compile. Returns (parent_text, lifted_text)."""
+    m = re.search(r"let\s+(mut\s+)?%s\s*=\s*\|" % re.escape(name), text)
+    if not m:
+        raise Undecided("%s: R25 closure `%s` not found" % (where, name))
+    p0 = m.end()
+    p1 = text.find("|", p0)
+    if p1 < 0:
+        raise Undecided("%s: R25 closure `%s`: parameter list not closed" % (where, name))
+    params = text[p0:p1]
+    toks = rustlex.lex(text)
+    pairs = rustlex.match_brackets(toks)
+    bstart = None
+    bend = None
+    for i, t in enumerate(toks):
+        if t.start >= p1 + 1 and t.text == "{":
+            bstart = t.start
+            bend = toks[pairs[i]].end
+            break
+        if t.start >= p1 + 1 and t.kind != "ws" and t.text != "{" and t.text.strip():
+            break
+    if bstart is None:
+        raise Undecided("%s: R25 closure `%s`: body is not a block" % (where, name))
+    rest = text[bend:]
+    msemi = re.match(r"\s*;", rest)
+    if not msemi:
+        raise Undecided("%s: R25 closure `%s`: statement does not end after the block" % (where, name))
+    stmt_end = bend + msemi.end()
+    body = text[bstart:bend]
+    parent = text[:m.start()] + "// (closure `%s` lifted: R25)" % name + text[stmt_end:]
+    cap_args = ", ".join(c[2] for c in captures)
+    parent, n = re.subn(r"\b%s\(" % re.escape(name), "Self::verif_closure_%s(%s, " % (name, cap_args), parent)
+    if n == 0:
+        raise Undecided("%s: R25 closure `%s` is never called" % (where, name))
+    cap_params = ", ".join("%s: %s" % (c[0], c[1]) for c in captures)
+    lifted = "fn verif_closure_%s(%s, %s)\n%s\n" % (name, cap_params, params.strip().rstrip(","), body)
+    return parent, lifted
+
+
 def extract_fn_text(fn):
     sf = source(fn.file)
     it = sf.find("fn", fn.name, impl=fn.impl, occurrence=fn.occurrence)
     if it is None:
         raise Undecided("item not found: fn %s (impl %s) in %s" % (fn.name, fn.impl, fn.file))
     text = sf.text[it.start:it.end]
+    lift = getattr(fn, "lift", None)
+    if lift:
+        parent, lifted = lift_closure(text, lift["closure"], lift["captures"], "%s::%s" % (fn.file, fn.key))
+        text = parent if lift["part"] == "parent" else lifted
     return sf, it, text
 
 
